@@ -120,5 +120,5 @@ def run(prop, jobs, design_ref, extra_assumptions=(), functions_note="", extra_r
             level = "other"
     C.write_evidence(prop, level, coverage, LIB_AXIOMS + list(extra_assumptions), time.time() - t0, len(report.violations))
     print(f"{prop}: obligations={cnt['obligations']} discharged={cnt['discharged']} known={cnt['known']} undecided={cnt['undecided']} "
-          f"violations={cnt['violations']} functions={len(fns)} wall={time.time() - t0:.1f}s", flush=True)
+          f"violations={len(report.violations)} functions={len(fns)} wall={time.time() - t0:.1f}s", flush=True)
     return report.exit_code()
